@@ -3,6 +3,7 @@ package main
 import (
 	"fmt"
 	"os"
+	"sort"
 	"go/token"
 	"go/types"
 	"math/big"
@@ -20,6 +21,7 @@ func (x *Exec) run(st *State, b *ssa.BasicBlock) {
 		if st.prev != nil && l.Body[st.prev] && st.inLoop[l] {
 			// back edge: invariant preserved, variant decreased; path ends
 			x.checkInvariants(st, l, "preserved")
+			x.checkLoopFrame(st, l)
 			if dec := x.ct.loopDec(l.Ordinal); dec != nil {
 				nv, ok := x.evalSpec(st, dec.Expr, "inv")
 				if ok && st.variantAt[l] != nil {
@@ -136,7 +138,44 @@ func (x *Exec) havocLoop(st *State, l *Loop) {
 	if os.Getenv("GOWP_DEBUG") != "" {
 		fmt.Fprintf(os.Stderr, "loop %d of %s: mods %v cells %d\n", l.Ordinal, relName(x.fn), sortedKeys(l.Mods), len(l.Cells))
 	}
-	x.havoc(st, l.Mods)
+	mods := l.Mods
+	var locs []loopLoc
+	if x.ct != nil && len(x.ct.LoopMod[l.Ordinal]) > 0 {
+		// declared loop frame: for the keys named, only the listed locations change
+		mods = map[string]bool{}
+		for k := range l.Mods {
+			mods[k] = true
+		}
+		locs = x.loopLocs(st, l)
+		for _, lc := range locs {
+			delete(mods, lc.key)
+			if lc.key == ghSent {
+				delete(mods, ghLast)
+			}
+		}
+	}
+	x.havoc(st, mods)
+	for _, lc := range locs {
+		arr := st.heapArr(lc.key, heapSorts[lc.key])
+		nv := x.freshVar("loopmod", arr.Sort.ArrElem())
+		if arr.Sort.ArrElem() == SStr {
+			x.strFacts(st, nv)
+		}
+		if lc.key == ghSent || lc.key == ghRecvd {
+			st.add(Ge(nv, Select(arr, lc.at)))
+		}
+		st.heap[lc.key] = Store(arr, lc.at, nv)
+	}
+	if len(locs) > 0 {
+		if st.loopHeap == nil {
+			st.loopHeap = map[*Loop]map[string]*Term{}
+		}
+		snap := map[string]*Term{}
+		for _, lc := range locs {
+			snap[lc.key] = st.heap[lc.key]
+		}
+		st.loopHeap[l] = snap
+	}
 	x.rangeIndexInvariant(st, l)
 }
 
@@ -167,6 +206,78 @@ func (x *Exec) rangeIndexInvariant(st *State, l *Loop) {
 	}
 	n := x.term(st, x.val(st, cmpI.Y), cmpI.Y.Type())
 	st.add(Ge(ri, IntLit(-1)), Or(Lt(ri, n), Eq(ri, IntLit(-1))))
+}
+
+type loopLoc struct {
+	key string
+	at  *Term
+}
+
+// loopLocs evaluates the declared loop frame (loop N modifies written(w), x.f, sent(ch)).
+func (x *Exec) loopLocs(st *State, l *Loop) []loopLoc {
+	var out []loopLoc
+	for _, e := range x.ct.LoopMod[l.Ordinal] {
+		env := &Env{x: x, st: st, old: x.entry, fn: x.fn, binds: map[string]specBinding{}, cells: true, mode: "inv", pkg: fnPkg(x.fn)}
+		switch {
+		case e.Kind == "call" && len(e.Args) == 1 && (e.Name == "written" || e.Name == "sent" || e.Name == "recvd" || e.Name == "closed" || e.Name == "content"):
+			at := env.eval(e.Args[0])
+			if env.err != nil {
+				x.specError(e, env.err)
+				continue
+			}
+			key := map[string]string{"written": ghBuf, "sent": ghSent, "recvd": ghRecvd, "closed": ghClosed, "content": ghRd}[e.Name]
+			out = append(out, loopLoc{key, at.T})
+		case e.Kind == "sel":
+			base := env.eval(e.Args[0])
+			if env.err != nil || base.Ty == nil {
+				x.specError(e, fmt.Errorf("loop frame: cannot evaluate %s", e))
+				continue
+			}
+			bt := derefType(base.Ty)
+			if stt, ok := bt.Underlying().(*types.Struct); ok {
+				for i := 0; i < stt.NumFields(); i++ {
+					if stt.Field(i).Name() == e.Name {
+						out = append(out, loopLoc{regHeap(fieldKey(bt, i), heapSortField(bt, i)), base.T})
+					}
+				}
+			}
+		default:
+			x.specError(e, fmt.Errorf("unsupported loop frame target"))
+		}
+	}
+	return out
+}
+
+// checkLoopFrame: at the back edge, for the keys of the declared loop frame, everything but
+// the listed locations is as it was at the loop head.
+func (x *Exec) checkLoopFrame(st *State, l *Loop) {
+	snap := st.loopHeap[l]
+	if snap == nil {
+		return
+	}
+	locs := x.loopLocs(st, l)
+	byKey := map[string][]*Term{}
+	for _, lc := range locs {
+		byKey[lc.key] = append(byKey[lc.key], lc.at)
+	}
+	var ks []string
+	for k := range snap {
+		ks = append(ks, k)
+	}
+	sort.Strings(ks)
+	for _, k := range ks {
+		cur := st.heapArr(k, heapSorts[k])
+		if cur.Key() == snap[k].Key() {
+			continue
+		}
+		sk := x.freshVar("loopframe_r", SInt)
+		var conds []*Term
+		for _, at := range byKey[k] {
+			conds = append(conds, Neq(sk, at))
+		}
+		x.oblige(st.clone(), "loopframe", fmt.Sprintf("#%d:%s", l.Ordinal, k), Implies(And(conds...), Eq(Select(cur, sk), Select(snap[k], sk))),
+			l.Head.Instrs[0].Pos(), "loop frame: only the declared locations of "+k+" change in the loop body")
+	}
 }
 
 func rootAlloc(v ssa.Value) *ssa.Alloc {
@@ -262,6 +373,10 @@ func (x *Exec) step(st *State, in ssa.Instruction) bool {
 			binds = append(binds, x.val(st, b))
 		}
 		st.regs[i] = Val{T: r, Fn: fn, Binds: binds}
+		if st.clos == nil {
+			st.clos = map[string]Val{}
+		}
+		st.clos[r.Key()] = st.regs[i]
 	case *ssa.ChangeType:
 		st.regs[i] = x.val(st, i.X)
 	case *ssa.ChangeInterface:
@@ -441,6 +556,13 @@ func (x *Exec) doUnOp(st *State, u *ssa.UnOp) {
 			v := x.load(st, a)
 			if a.Root != rCell {
 				x.enterFacts(st, v, et)
+				// a value read from a heap array that is unchanged since entry existed at entry
+				if arr, ok := st.heap[a.Key]; ok && arr.Op == "var" && strings.HasSuffix(arr.Val, "@0") && x.entry != nil {
+					saved := st.ghost["top"]
+					st.ghost["top"] = x.entry.ghostInt("top")
+					x.allocFacts(st, v, et)
+					st.ghost["top"] = saved
+				}
 			}
 			st.regs[u] = Val{T: v}
 			return
@@ -497,7 +619,7 @@ func (x *Exec) fitInt(st *State, in ssa.Instruction, e *Term, t types.Type, what
 	if v, isLit := e.IntVal(); isLit && v.Cmp(lo) >= 0 && v.Cmp(hi) <= 0 {
 		return e
 	}
-	if x.full && x.ct != nil && !x.ct.Wraps && !x.ct.NoOvf {
+	if x.full && x.ct != nil && !x.ct.Wraps && !x.ct.NoOvf && !(x.ct.WrapsUnsigned && lo.Sign() == 0) {
 		x.oblige(st, "ovf", fmt.Sprintf("#%d", x.ordinal("ovf", in)), And(Le(BigLit(lo), e), Le(e, BigLit(hi))), in.Pos(),
 			"no overflow in "+what+" of type "+t.String())
 		return e
@@ -703,6 +825,9 @@ func (x *Exec) concat(st *State, a, b *Term) *Term {
 func (x *Exec) strFacts(st *State, s *Term) {
 	if s.Op == "var" && strings.HasPrefix(s.Val, "str!") {
 		return
+	}
+	if strings.Contains(s.Key(), "bv!") {
+		return // under a binder: the quantified prelude axioms apply
 	}
 	st.add(Ge(App("slen", SInt, s), Zero), Ge(App("dw", SInt, s), Zero))
 	st.add(Eq(Eq(App("slen", SInt, s), Zero), Eq(s, strEmpty)))
@@ -1123,6 +1248,11 @@ func (x *Exec) makeIface(st *State, v Val, t types.Type) *Term {
 	theU.DeclFunc(unbox, s, SInt)
 	tag := IntLit(int64(x.P.typeTag(t)))
 	r := App(box, SInt, tag, inner)
+	if _, isPtr := t.Underlying().(*types.Pointer); isPtr {
+		// a non-nil pointer in an interface is represented by the reference itself (every
+		// reference has one dynamic type), so ghost state keyed by the object is shared
+		r = Ite(Eq(inner, Zero), r, inner)
+	}
 	st.add(Eq(App("typeof", SInt, r), tag), Eq(App(unbox, s, r), inner), Gt(r, Zero))
 	return r
 }
